@@ -101,10 +101,18 @@ def special(i):
         return "99999999999999999999"
     if i == 30:
         return chr(0xD800)         # lone surrogate: valid JSON-like text, not encodable as UTF-8
-    return -1
+    if i == 31:
+        return -1
+    if i == 32:
+        return "a<![foo[ bar]]>b"  # a marked section html.parser asserts on
+    if i == 33:
+        return "<![>"
+    if i == 34:
+        return 10 ** 12            # a timestamp beyond year 9999
+    return "\u00b2"                # a digit for str.isdigit() that int() rejects
 
 
-NSPECIAL = 31
+NSPECIAL = 35
 
 
 def only_liquid(t, data):
@@ -144,7 +152,7 @@ def _mk_filter(n):
         pre: not isinstance(x, str) or len(x) <= 3
         pre: not isinstance(y, str) or len(y) <= 3
         pre: not isinstance(z, str) or len(z) <= 2
-        pre: 1 <= k <= 3 and 0 <= slot <= 3 and 0 <= sp <= 31 and sp != 28 and 0 <= mode <= 2
+        pre: 1 <= k <= 3 and 0 <= slot <= 3 and 0 <= sp <= 35 and sp != 28 and sp != 34 and 0 <= mode <= 2
         post: _
         """
         if excluded("c02_filter_" + n, locals()):
@@ -184,6 +192,9 @@ _SUB = (0, 3, 5, 10, 11, 20, 21, 22)
 
 HUGE = 28   # the int beyond sys.get_int_max_str_digits(): swept by c02_int_beyond_str_digits only (known finding)
 _POOL = [i for i in range(NSPECIAL + 1) if i != HUGE]
+# 10**12 only as filter input / first tag operand: as a repeat count or indent it asks for a terabyte (MemoryError is
+# resource exhaustion, the subject of C06-C08, and must not be provoked on the checking host)
+_YPOOL = [i for i in _POOL if i != 34]
 
 
 def srepr(v):
@@ -196,7 +207,7 @@ def srepr(v):
 def _specials_sweep(n, k, m, pool=None, ypool=None):
     bad = []
     pool = _POOL if pool is None else pool
-    ypool = pool if ypool is None else ypool
+    ypool = _YPOOL if ypool is None else ypool
     if k == 1:
         for a in pool:
             if not only_liquid(T1[(m, n)], {"x": special(a)}):
@@ -270,7 +281,7 @@ def _mk_tag(kind):
         """
         pre: not isinstance(x, str) or len(x) <= 3
         pre: not isinstance(y, str) or len(y) <= 3
-        pre: 0 <= n <= 3 and 0 <= slot <= 2 and 0 <= sp <= 31 and sp != 28 and 0 <= mode <= 2
+        pre: 0 <= n <= 3 and 0 <= slot <= 2 and 0 <= sp <= 35 and sp != 28 and sp != 34 and 0 <= mode <= 2
         post: _
         """
         if excluded("c02_tag_" + kind, locals()):
@@ -327,7 +338,7 @@ def _tag_sweep(kind, m):
     bad = []
     t = TT[(m, kind)]
     for a in _POOL:
-        for b in _POOL:
+        for b in _YPOOL:
             for n in (0, 2):
                 if not only_liquid(t, {"x": special(a), "y": special(b), "xs": list(range(n)), "d": {"a": 1, "b": {"c": 2}}}):
                     bad.append((a, b, n))
@@ -357,7 +368,7 @@ from liquid.limits import to_int  # noqa: E402
 def c02_kernel_args(x: V, k: int, slot: bool, sp: int) -> bool:
     """
     pre: not isinstance(x, str) or len(x) <= 4
-    pre: 0 <= k <= 3 and 0 <= sp <= 31 and sp != 28
+    pre: 0 <= k <= 3 and 0 <= sp <= 35 and sp != 28 and sp != 34
     post: _
     """
     # the argument helpers used by every numeric filter: return, or raise a LiquidError (to_int: ValueError/TypeError
@@ -475,7 +486,7 @@ ASSUMPTIONS = [
     "one argument slot may be replaced by a value from a 20-element pool of awkward values (inf, nan, 10**400, numeric-looking / percent / non-ASCII / invalid base64 strings, list, dict, range, nested and mixed lists)",
     "babel-backed filters run with their default locale data",
 ]
-OUTSIDE = ["strings longer than 3 code points (except pool members)", "RecursionError from deep recursion (C09)", "custom filters and drops"]
+OUTSIDE = ["MemoryError from arguments that ask for huge allocations (resource exhaustion: C06-C08)", "strings longer than 3 code points (except pool members)", "RecursionError from deep recursion (C09)", "custom filters and drops"]
 
 
 def selftest():
